@@ -273,7 +273,7 @@ fn dotted_text(s: &[char]) -> bool {
 }
 // ---- the class of ALNUM texts of Proofs/C18LexAlnum.v (phase 5: digits, periods, straight apostrophe), evaluated
 // with the real predicates
-const BAD3: &[char] = &['@', ':', '[', '‘', '＇']; // = C18LexAlnum.bad3 (phase 6: U+2019 is inside the class)
+const BAD3: &[char] = &['@', '[', '‘', '＇']; // = C18LexAlnum.bad3 (phase 6: U+2019 inside the class; phase 7: the colon too)
 fn dch(c: char) -> bool {
     c.is_ascii_digit() && c.is_numeric()
 }
@@ -311,8 +311,13 @@ fn start_ok(s: &[char], i: usize) -> bool {
 fn q_here(s: &[char], i: usize) -> bool {
     start_ok(s, i) && (q_plural(s, i) || q_apos(s, i) || q_hex(s, i))
 }
+/// phase 7 (C18LexAlnum.q_url): `://` at ANY position — where lex_url's lex_ip_schemepart starts; without it lex_url
+/// declines at every cursor position (C18_alnum_url_declines)
+fn q_url(s: &[char], i: usize) -> bool {
+    i + 2 < s.len() && s[i] == ':' && s[i + 1] == '/' && s[i + 2] == '/'
+}
 fn ctx_ok3(s: &[char]) -> bool {
-    (0..s.len()).all(|i| !q_here(s, i))
+    (0..s.len()).all(|i| !q_url(s, i) && !q_here(s, i))
 }
 fn alnum_text(s: &[char]) -> bool {
     s.iter().all(|c| char3(*c)) && ctx_ok3(s)
@@ -658,13 +663,22 @@ fn check_text(rep: &mut Report, world: &World, text: &str, origin: &str, r: Opti
     // the class of C18_str_relex_alnum / C18_str_idempotent_alnum (phase 5): alnum_stable_text — contains both classes
     // above (theorems plain_alnum / dotted_alnum; observed here)
     let is_alnum = alnum_text(&src) && !src.iter().any(|c| world.unstable3.contains(c));
+    // per-stream coverage of the proved class (phase 7: the colon stream is aimed at the class border, so the overall
+    // percentage is only comparable between runs on the same streams)
+    if origin == "colon" {
+        rep.count(if is_alnum { "class3_colon_stream:alnum" } else { "class3_colon_stream:outside" });
+    } else {
+        rep.count(if is_alnum { "class3_other_streams:alnum" } else { "class3_other_streams:outside" });
+    }
     if (plain_text(&src) || dotted_text(&src)) && !alnum_text(&src) {
         rep.fail("class_inclusion", format!("{:?} is plain or dotted but not in the alnum class (C18_alnum_contains_plain_dotted says it is)", text), inp.clone());
     }
     if is_alnum {
         rep.count("class3:alnum(C18_str_idempotent_alnum applies)");
         if !is_plain && !is_dotted {
-            rep.count(if src.contains(&'’') {
+            rep.count(if src.contains(&':') {
+                "class3:alnum_only:has_colon(phase 7)"
+            } else if src.contains(&'’') {
                 "class3:alnum_only:has_curly_apostrophe(phase 6)"
             } else if src.iter().any(|c| c.is_ascii_digit()) {
                 "class3:alnum_only:has_digit"
@@ -675,8 +689,10 @@ fn check_text(rep: &mut Report, world: &World, text: &str, origin: &str, r: Opti
             });
         }
     } else {
-        let why = if src.iter().any(|c| matches!(c, '@' | ':' | '[')) {
-            "at_colon_bracket".to_string()
+        let why = if src.iter().any(|c| matches!(c, '@' | '[')) {
+            "at_or_bracket".to_string()
+        } else if (0..src.len()).any(|i| q_url(&src, i)) {
+            "Q_url(://)".to_string()
         } else if src.iter().any(|c| BAD3.contains(c)) {
             "left_quote_or_fullwidth_apostrophe(U+2018,U+FF07)".to_string()
         } else if !src.iter().all(|c| char3(*c)) {
@@ -1513,6 +1529,38 @@ fn alnum_title(r: &mut Rng, v: &Vocab) -> String {
     out
 }
 
+/// titles for phase 7: the colon inside the alnum class — words, numbers, contractions glued by colons in every
+/// neighbourhood (times, ratios, `re:`, drive letters, scheme look-alikes `a:/b`, `a:b//c`, ports), some with a real
+/// `://` (outside the class: URL tokens, oracle-only)
+fn colon_title(r: &mut Rng, v: &Vocab) -> String {
+    const GLUE: &[&str] = &[": ", ": ", ":", ":", " : ", " :", "::", ":/", ":/ /", ": //", ":\\", ":80 ", ":80/", ":.", ".:", ":-", "':", ":'", "’:", ":s ", "s:", ":as-", ":as ", " ", " ", ". ", "://", "://", "/", "//"];
+    const W: &[&str] = &["re", "RE", "note", "http", "HTTP", "https", "mailto", "c", "C", "10", "30", "1e5", "2nd", "isn't", "john’s", "as", "is", "us", "a.b", "www.a.b", "ss", "é", "Ünï", "x", "localhost", "1s", "0x1"];
+    let n = r.range(2, 6);
+    let mut out = String::new();
+    for i in 0..n {
+        if i > 0 {
+            out.push_str(r.s(GLUE));
+        }
+        let w = match r.below(5) {
+            0 => r.s(SPECIAL).to_string(),
+            1 => r.pick(&v.proper).clone(),
+            2 => r.pick(&v.any).clone(),
+            _ => r.s(W).to_string(),
+        };
+        let w: String = w.chars().filter(|c| !BAD3.contains(c)).collect();
+        out.push_str(&match r.below(4) {
+            0 => w.to_uppercase(),
+            1 => w.to_lowercase(),
+            2 => gen::capitalize(&w.to_lowercase()),
+            _ => w,
+        });
+    }
+    if r.chance(1, 4) {
+        out.push(':');
+    }
+    out
+}
+
 fn main() {
     let (a, corpus) = hv::cli();
     let mut rep = Report::new(&a.out);
@@ -1559,6 +1607,10 @@ fn main() {
     for _ in 0..a.scale(1500, 30000) {
         let t = alnum_title(&mut r, &vocab);
         check_text(&mut rep, &world, &t, "alnum", None);
+    }
+    for _ in 0..a.scale(800, 16000) {
+        let t = colon_title(&mut r, &vocab);
+        check_text(&mut rep, &world, &t, "colon", None);
     }
     for _ in 0..a.scale(500, 6000) {
         let t = gen::any_text(&mut r);
